@@ -1034,7 +1034,9 @@ class Interp:
             if fn is None or fn.cls is None:
                 raise Unsupported("super() outside method")
             if e.func.value.args:
-                raise Unsupported("super() with arguments")
+                a0 = e.func.value.args
+                if not (len(a0) == 2 and isinstance(a0[0], ast.Name) and a0[0].id == fn.cls.name and isinstance(a0[1], ast.Name) and a0[1].id == fn.node.args.args[0].arg):
+                    raise Unsupported("super() with arguments other than (OwnClass, self)")
             first = fn.node.args.args[0].arg
             found, selfobj = env.lookup(first)
             if isinstance(selfobj, (SClass, NativeClass)):
